@@ -7,10 +7,14 @@ import MgpuProofs.C01D2D
   bytes and changes nothing else (contrast: `memcopyD2D_tail_overrun` in Props/C01Emu.lean, a statement about
   the OLD launch shape `G = ⌈num/4⌉, N = num`);
 * `d2dPlan_exact` — the plan covers `num` bytes: `4·words + tailLen = num`, `tailOff = 4·words`, `tailLen < 4`;
-* `copyKernel_fresh_kernarg`, `copyKernel_fresh_kernarg_run` — the driver writes only 24 bytes of kernel
-  arguments; `copyKernel` also reads the hidden global offset at `kernarg + 24 .. 31`.  When these 8 bytes are
-  zero in the caller's memory (a never-used page), the program proof holds for the image the driver really
-  installs;
+* `copyKernel_driver_kernarg`, `copyKernel_driver_kernarg_run`, `driver_writes_hidden_offset` — the REPAIRED
+  driver (finding `C01-hidden-kernarg-stale-page`) writes 48 bytes of kernel arguments: the explicit ones and
+  explicit zeros for the hidden global offsets; `copyKernel` reads the hidden global offset x at
+  `kernarg + 24 .. 31`.  The program proof holds for the image the driver really installs, for EVERY memory —
+  whatever the kernel-argument page held before;
+* `copyKernel_fresh_kernarg`, `copyKernel_fresh_kernarg_run`, `old_driver_leaves_hidden_offset` — the driver
+  BEFORE that repair wrote only the 24 explicit bytes (`driverImageOldOld`): the proof needed the 8 bytes behind
+  them to be zero in the caller's memory (a never-used page), and a reused page keeps whatever it held;
 * `fresh_until_wrap`, `fresh_always_refuted` — where that zero comes from: the free-page queue of a device hands
   out the pages of its initial queue, each once and in order, before anything that was given back; after that
   (the queue "wraps") a page that was used before can be handed out again. -/
@@ -47,22 +51,68 @@ theorem memcopyD2D_exact (co ka pa src dst num : Nat)
       get (d2dStart co ka pa src dst num tail pk m) a) :=
   d2d_exact co ka pa src dst num hsE hdE hdisj hv tail pk m hpk h4 h5 hsep hbytes
 
-/-- **copyKernel_fresh_kernarg.** `EnqueueMemCopyD2D` writes the 24 bytes `KernelMemCopyArgs{src, dst, n}`
-    (`driverImage`) into the kernel-argument buffer; `copyKernel` also loads the hidden global offset x from
-    bytes 24..31 of that buffer, which nobody writes.  If these 8 bytes are zero in the caller's memory
+/-- **copyKernel_driver_kernarg (full statement, since the repair of finding `C01-hidden-kernarg-stale-page`).**
+    `EnqueueMemCopyD2D` writes the 48 bytes `KernelMemCopyArgs{Src, Dst, N, HiddenGlobalOffsetX/Y/Z: 0}`
+    (`driverImage`) into the kernel-argument buffer.  For EVERY memory `m` — no hypothesis on the page the
+    buffer lies on — the emulator runs the dispatch with the image the driver really installs without fault,
+    `dst[i] = src[i]` for the `4·min(G,N)` bytes of the copied elements and every other byte is what it was at
+    launch (`driverMem`: the caller's memory with the 48 argument bytes and the packet installed). -/
+theorem copyKernel_driver_kernarg (c : Cfg) (hv : c.Valid) (hG : 0 < c.G) (pk : List Nat) (m : Mem) (fuel : Nat)
+    (hpk : 8 ≤ pk.length) (h4 : pk.getD 4 0 = 64) (h5 : pk.getD 5 0 = 0)
+    (hsep : c.ka + 32 ≤ c.pa ∨ c.pa + pk.length ≤ c.ka)
+    (hsrc : c.src < 2 ^ 64) (hdst : c.dst < 2 ^ 64)
+    (hbytes : ∀ i, i < 4 * c.K → get (driverMem c pk m) (c.src + i) < 256) :
+    ∃ m', runE P (disp c (driverImage c) pk) (fuel + 27) m = .ok m' ∧
+      (∀ i, i < 4 * c.K → get m' (c.dst + i) = get (driverMem c pk m) (c.src + i)) ∧
+      (∀ a, ¬ c.inDst a → get m' a = get (driverMem c pk m) a) :=
+  driver_kernarg_runE c hv hG pk m fuel hpk h4 h5 hsep hsrc hdst hbytes
+
+/-- the same for `Emu.run` (the function the correspondence cases execute) -/
+theorem copyKernel_driver_kernarg_run (c : Cfg) (hv : c.Valid) (hG : 0 < c.G) (pk : List Nat) (m : Mem)
+    (hpk : 8 ≤ pk.length) (h4 : pk.getD 4 0 = 64) (h5 : pk.getD 5 0 = 0)
+    (hsep : c.ka + 32 ≤ c.pa ∨ c.pa + pk.length ≤ c.ka)
+    (hsrc : c.src < 2 ^ 64) (hdst : c.dst < 2 ^ 64)
+    (hbytes : ∀ i, i < 4 * c.K → get (driverMem c pk m) (c.src + i) < 256) :
+    (∀ i, i < 4 * c.K → get (run P (disp c (driverImage c) pk) m) (c.dst + i) = get (driverMem c pk m) (c.src + i)) ∧
+    (∀ a, ¬ c.inDst a → get (run P (disp c (driverImage c) pk) m) a = get (driverMem c pk m) a) :=
+  driver_kernarg_run c hv hG pk m hpk h4 h5 hsep hsrc hdst hbytes
+
+/-- **driver_writes_hidden_offset.** In the memory the repaired driver installs, the hidden global offset x
+    the kernel loads is zero whatever the page held before; the image is the image of the program proof
+    (`kernargImage`) followed by the zero offsets y and z, so `memcopyD2D_exact` (any `tail`) is a statement
+    about the launch the driver really builds. -/
+theorem driver_writes_hidden_offset (c : Cfg) (pk : List Nat) (m : Mem)
+    (hsep : c.ka + 32 ≤ c.pa ∨ c.pa + pk.length ≤ c.ka) :
+    (∀ j, j < 8 → get (driverMem c pk m) (c.ka + 24 + j) = 0) ∧
+    driverImage c = kernargImage c ++ (le8 0 ++ le8 0) ∧ (driverImage c).length = 48 :=
+  ⟨driverMem_hidden_zero c pk m hsep, driverImage_eq c, rfl⟩
+
+/-- **old_driver_leaves_hidden_offset (the code before the repair).** The 24-byte image left bytes 24..31 of
+    the kernel-argument buffer as the page held them: with `0x40` there (the input of the former finding: a page
+    that was used before) the kernel's hidden global offset is 64, not 0 — `MemCopyD2D(64)` launched 16
+    work-items with ids 64..79, none below `N = 16`, and copied nothing. -/
+theorem old_driver_leaves_hidden_offset (c : Cfg) (pk : List Nat) (m : Mem)
+    (hsep : c.ka + 32 ≤ c.pa ∨ c.pa + pk.length ≤ c.ka) (j : Nat) (hj : j < 8) :
+    get (driverMemOld c pk m) (c.ka + 24 + j) = get m (c.ka + 24 + j) := by
+  unfold driverMemOld
+  rw [get_install, if_neg (by omega), get_install, if_neg (by rw [driverImageOld_length]; omega)]
+
+/-- **copyKernel_fresh_kernarg (the code before the repair).** `EnqueueMemCopyD2D` wrote the 24 bytes `KernelMemCopyArgs{src, dst, n}`
+    (`driverImageOld`) into the kernel-argument buffer; `copyKernel` also loads the hidden global offset x from
+    bytes 24..31 of that buffer, which nobody wrote.  If these 8 bytes are zero in the caller's memory
     (`hfresh`: the buffer lies on a never-used page, see `fresh_until_wrap`), the emulator runs the dispatch
     with the image the driver really installs without fault, `dst[i] = src[i]` for the `4·min(G,N)` bytes of the
-    copied elements and every other byte is what it was at launch (`driverMem`: the caller's memory with the 24
+    copied elements and every other byte is what it was at launch (`driverMemOld`: the caller's memory with the 24
     argument bytes and the packet installed). -/
 theorem copyKernel_fresh_kernarg (c : Cfg) (hv : c.Valid) (hG : 0 < c.G) (pk : List Nat) (m : Mem) (fuel : Nat)
     (hpk : 8 ≤ pk.length) (h4 : pk.getD 4 0 = 64) (h5 : pk.getD 5 0 = 0)
     (hsep : c.ka + 32 ≤ c.pa ∨ c.pa + pk.length ≤ c.ka)
     (hsrc : c.src < 2 ^ 64) (hdst : c.dst < 2 ^ 64)
     (hfresh : ∀ j, j < 8 → get m (c.ka + 24 + j) = 0)
-    (hbytes : ∀ i, i < 4 * c.K → get (driverMem c pk m) (c.src + i) < 256) :
-    ∃ m', runE P (disp c (driverImage c) pk) (fuel + 27) m = .ok m' ∧
-      (∀ i, i < 4 * c.K → get m' (c.dst + i) = get (driverMem c pk m) (c.src + i)) ∧
-      (∀ a, ¬ c.inDst a → get m' a = get (driverMem c pk m) a) :=
+    (hbytes : ∀ i, i < 4 * c.K → get (driverMemOld c pk m) (c.src + i) < 256) :
+    ∃ m', runE P (disp c (driverImageOld c) pk) (fuel + 27) m = .ok m' ∧
+      (∀ i, i < 4 * c.K → get m' (c.dst + i) = get (driverMemOld c pk m) (c.src + i)) ∧
+      (∀ a, ¬ c.inDst a → get m' a = get (driverMemOld c pk m) a) :=
   fresh_kernarg_runE c hv hG pk m fuel hpk h4 h5 hsep hsrc hdst hfresh hbytes
 
 /-- the same for `Emu.run` (the function the correspondence cases execute) -/
@@ -71,17 +121,17 @@ theorem copyKernel_fresh_kernarg_run (c : Cfg) (hv : c.Valid) (hG : 0 < c.G) (pk
     (hsep : c.ka + 32 ≤ c.pa ∨ c.pa + pk.length ≤ c.ka)
     (hsrc : c.src < 2 ^ 64) (hdst : c.dst < 2 ^ 64)
     (hfresh : ∀ j, j < 8 → get m (c.ka + 24 + j) = 0)
-    (hbytes : ∀ i, i < 4 * c.K → get (driverMem c pk m) (c.src + i) < 256) :
-    (∀ i, i < 4 * c.K → get (run P (disp c (driverImage c) pk) m) (c.dst + i) = get (driverMem c pk m) (c.src + i)) ∧
-    (∀ a, ¬ c.inDst a → get (run P (disp c (driverImage c) pk) m) a = get (driverMem c pk m) a) :=
+    (hbytes : ∀ i, i < 4 * c.K → get (driverMemOld c pk m) (c.src + i) < 256) :
+    (∀ i, i < 4 * c.K → get (run P (disp c (driverImageOld c) pk) m) (c.dst + i) = get (driverMemOld c pk m) (c.src + i)) ∧
+    (∀ a, ¬ c.inDst a → get (run P (disp c (driverImageOld c) pk) m) a = get (driverMemOld c pk m) a) :=
   fresh_kernarg_run c hv hG pk m hpk h4 h5 hsep hsrc hdst hfresh hbytes
 
-/-- on a fresh page the 24-byte image the driver installs and the 32-byte image of `copyKernel_run` (explicit zero
+/-- on a fresh page the 24-byte image the old driver installed and the 32-byte image of `copyKernel_run` (explicit zero
     offset) give the same memory content -/
 theorem fresh_kernarg_same_memory (c : Cfg) (pk : List Nat) (m : Mem)
     (hfresh : ∀ j, j < 8 → get m (c.ka + 24 + j) = 0) :
-    get (driverMem c pk m) = get (launchMem c [] pk m) :=
-  get_driverMem c pk m hfresh
+    get (driverMemOld c pk m) = get (launchMem c [] pk m) :=
+  get_driverMemOld c pk m hfresh
 
 /-- **fresh_until_wrap.** The free-page queue of a device (`popNextAvailablePAddrs` takes the head,
     `addSinglePAddr` appends at the END): for every initial queue `q0` and every sequence of pops and pushes
@@ -100,7 +150,8 @@ theorem fresh_until_wrap (q0 : List Nat) (ops : List QOp) (q' outs : List Nat)
 /-- **fresh_always_refuted.** Without the restriction to the first `|q0|` pages the claim is false: once the
     queue has wrapped, a page that was given back is handed out again (`[pop, push 1, pop]` on `[1]` hands out
     page 1 twice).  From then on a kernel-argument buffer may lie on a page whose bytes 24..31 were written
-    before, and `hfresh` of `copyKernel_fresh_kernarg` is no longer guaranteed by the allocator. -/
+    before, and `hfresh` of `copyKernel_fresh_kernarg` is no longer guaranteed by the allocator — which is why
+    the repaired driver writes the zeros itself (`copyKernel_driver_kernarg` has no such hypothesis). -/
 theorem fresh_always_refuted : ¬ fresh_always_full := by
   intro h
   exact absurd (h [1] [.pop, .push 1, .pop] [] [1, 1] (by decide) (by decide)) (by decide)
@@ -142,7 +193,7 @@ example :
 /-- a never-used page: the hidden-offset bytes of a kernel-argument buffer at 0x4000 are zero -/
 example : ∀ j, j < 8 → get (install 0x1000 [1, 2, 3, 4, 5] []) (0x4000 + 24 + j) = 0 := by decide
 
-example : driverImage (d2dCfgW 0x3000 0x4000 0x5000 0x1000 0x2000 5) =
+example : driverImageOld (d2dCfgW 0x3000 0x4000 0x5000 0x1000 0x2000 5) =
     [0, 0x10, 0, 0, 0, 0, 0, 0, 0, 0x20, 0, 0, 0, 0, 0, 0, 1, 0, 0, 0, 0, 0, 0, 0] := by decide
 
 example : qrun [10, 20] [.pop, .push 10, .pop] = some ([10], [10, 20]) := by decide
